@@ -260,7 +260,9 @@ def run_uvalue(prop, tier, replay=None):
         wallc = [c for c in cases if c["kind"] == "wall"]
         winc = [c for c in cases if c["kind"] == "win"]
         if quick and payload is None:
-            winc = [c for i, c in enumerate(winc) if (i * 7 + seed()) % 12 == 0]
+            # quick: every corner case (frame fraction 0 or 1, unresolved glazing or frame) and 1 in 12 of the rest
+            corner = lambda c: c["w"]["ff"] in (0, 100) and (c["w"]["glass"] != "ok" or c["w"]["frame"] != "ok")
+            winc = [c for i, c in enumerate(winc) if corner(c) or (i * 7 + seed()) % 12 == 0]
         reqs, meta = [], []
         discarded = 0
         if prop == "C06":
